@@ -450,7 +450,7 @@ public:
     {
         TCB_SPAN_EXPECT((offset >= 0 && offset <= size()) &&
                         (count == dynamic_extent ||
-                         (count >= 0 && offset + count <= size())));
+                         (count >= 0 && count <= size() - offset)));
         return {data() + offset,
                 count == dynamic_extent ? size() - offset : count};
     }
